@@ -259,7 +259,8 @@ def finish(ctx):
             path = os.path.join(rdir, "%d.json" % n)
             json.dump({"property": ctx.pid, "key": key, "occurrences": len(vs), "tier": ctx.tier, "seed": ctx.seed,
                        "first": vs[0]}, open(path, "w"), indent=1)
-            log("VIOLATION property=%s replay=%s  key=%s x%d :: %s" % (ctx.pid, path, key, len(vs), vs[0].get("detail", "")[:300]))
+            detail = "".join(c if 32 <= ord(c) < 127 else "\\u%04x" % ord(c) for c in vs[0].get("detail", "")[:300])
+            log("VIOLATION property=%s replay=%s  key=%s x%d :: %s" % (ctx.pid, path, key, len(vs), detail))
         rc = 1
     cov = {
         "states": ctx.states, "transitions": ctx.transitions,
